@@ -387,6 +387,42 @@ def noEmitAfterAct {α} (k : ActK) : List (Eff α) → Bool
 def delivered {α} (l : List (Eff α)) : List (Notif α) :=
   l.filterMap (fun e => match e with | .emit n _ => some n | _ => none)
 
+/-! ## "each callback sees every corresponding notification once, in order" -/
+
+/-- entries that are a delivery or a per-notification callback of the `do_*` family -/
+def Eff.isCb {α} : Eff α → Bool
+  | .emit _ _ => true
+  | .act .next _ _ | .act .error _ _ | .act .completed _ _ | .act .afterNext _ _
+  | .act .terminate _ _ | .act .afterTerminate _ _ => true
+  | _ => false
+
+/-- what the log must contain, around one delivery, for the operator's callbacks to have seen exactly that
+notification (before it for `do_action`/`do_on_terminate`, after it for `do_after_*` — there only if the
+subscriber's callback returned). -/
+def expect {α} (c : Cfg) : Eff α → List (Eff α)
+  | .emit n r =>
+    match c.oper with
+    | .doAction =>
+      (match n with
+        | .next v => if c.hasNext then [.act .next (some (.next v)) false] else []
+        | .error e => if c.hasError then [.act .error (some (.error e)) false] else []
+        | .completed => if c.hasCompleted then [.act .completed none false] else []) ++ [.emit n r]
+    | .doAfterNext =>
+      .emit n r :: (match n with | .next v => if r then [] else [.act .afterNext (some (.next v)) false] | _ => [])
+    | .doOnTerminate => (if n.isTerminal then [.act .terminate none false] else []) ++ [.emit n r]
+    | .doAfterTerminate => .emit n r :: (if n.isTerminal && !r then [.act .afterTerminate none false] else [])
+    | _ => [.emit n r]
+  | _ => []
+
+/-- the deliveries and callback invocations in the log are exactly, in order, the deliveries each
+accompanied by its callback invocation -/
+def cbShape {α} (c : Cfg) (l : List (Eff α)) : Prop :=
+  l.filter Eff.isCb = (l.filter Eff.isEmit).flatMap (expect c)
+
+/-- operators that return the source subscription itself -/
+def Plain (c : Cfg) : Prop :=
+  c.oper = .doAction ∨ c.oper = .doAfterNext ∨ c.oper = .doOnTerminate ∨ c.oper = .doAfterTerminate ∨ c.oper = .doOnSubscribe
+
 /-! ## the reference pipeline for transparency -/
 
 /-- the same subscription without the operator: `do_action()` with no callbacks
